@@ -46,6 +46,11 @@ def run(ctx):
         g = dom.gas_params(rng)
         T, tpc, ppc, sg = g["T"], g["Tpc"], g["Ppc"], g["sg"]
         p = dom.loguniform(rng, 15, min(14000.0, 30 * ppc))
+        if k % 10 == 9:
+            # exact reference state points of the library (standard conditions, table start, documented examples): floats and ints
+            T, p = [(60, 14.7), (60.0, 14.70), (60.0, 14.696), (59.0, 14.7), (60.0, 10.0), (100.0, 14.7), (60, 1000), (400.0, 14.7)][(k // 10) % 8]
+            if not 1.05 <= (T + 459.67) / (tpc + 459.67) <= 3:
+                continue
         z = float(gas.z_factor_DAK(T, p, tpc, ppc))
         rho = float(gas.density_DAK(T, p, tpc, ppc, sg))
         bg = float(gas.b_factor_DAK(T, p, tpc, ppc))
@@ -77,7 +82,7 @@ def run(ctx):
         dln = d2 + (d2 - d1) / 3
         if not dom.relclose(cg, dln, 2e-6, 1e-12):
             # is the discrepancy exactly the one predicted by K1?  (formula with E' = coded EOS derivative)
-            tr, pr = g["Tr"], p / ppc
+            tr, pr = (T + 459.67) / (tpc + 459.67), p / ppc
             r = 0.27 * pr / (tr * z)
             Dc = dak.dzeos(tr, r, False)
             c_pred = (1 / pr - 0.27 / (z * z * tr) * (Dc / (1 + r * Dc / z))) / ppc
